@@ -11,7 +11,7 @@ That the `Float` reading approximates the real reading is NOT proved (trusted ba
 correspondence compares at 1e-9 of the largest magnitude).
 
 Contents (stable API, other models import this file):
-  `RScalar`, `CScalar`           operation classes (notation `+ - * /` comes from the parents)
+  `RScalar`, `CScalar`, `RSqrt`  operation classes (notation `+ - * /` comes from the parents; `sqrt` separate)
   `sumRange z n f`               `z + f 0 + … + f (n-1)` (left fold, as a numpy sum)
   `rsum`, `ksum`                 `sumRange` starting from the class zero
   `sqmag z`                      `(z * conj z).real`
@@ -23,6 +23,7 @@ Contents (stable API, other models import this file):
   `memoArr`, `memoGet`           tabulation that is provably the identity (`memoGet_memoArr`);
   `memoArr2/3`, `memoGet2/3`     the same for two / three indices; `matList` = M×M×L array in C order
   `C`, `twiddle`, `twiddleTable` the `Float` instance and its twiddle factors cos/sin(2π m/N)
+  `Q2`, `twiddleQ?`              the exact instance (ℚ, ℚ(i)); exact twiddles for N ∈ {1,2,4}
   parsing / printing helpers for the line protocol
 -/
 import Nitime.Model.Proto
@@ -32,6 +33,9 @@ namespace Nitime.Num
 /-- operations on the real scalars -/
 class RScalar (R : Type) extends Add R, Sub R, Mul R, Div R, Neg R where
   ofNat : Nat → R
+
+/-- square root, kept apart so that exact (rational) runs of everything that needs no root exist -/
+class RSqrt (R : Type) where
   sqrt : R → R
 
 /-- operations on the complex scalars over `R` -/
@@ -42,7 +46,8 @@ class CScalar (R : outParam Type) (K : Type) [RScalar R] extends Add K, Sub K, M
   re : K → R
   im : K → R
 
-export RScalar (ofNat sqrt)
+export RScalar (ofNat)
+export RSqrt (sqrt)
 export CScalar (conj ofReal re im)
 
 section generic
@@ -132,6 +137,8 @@ structure C where
 
 instance : RScalar Float where
   ofNat := Nat.toFloat
+
+instance : RSqrt Float where
   sqrt := Float.sqrt
 
 instance : CScalar Float C where
@@ -156,6 +163,55 @@ def twiddleTable (N : Nat) : Array C := memoArr N (twiddle N)
 
 /-- twiddle provider backed by a table (`memoGet`, hence equal to `twiddle N`) -/
 def twiddleFn (N : Nat) (tab : Array C) : Nat → C := memoGet tab (twiddle N)
+
+/-! ### the exact reading: rationals and Gaussian rationals
+
+Everything that needs no square root (periodogram, all-pairs periodogram, Welch, the one-sided fold) also runs
+exactly.  Exact twiddles `e^{-2πi m/N}` exist in ℚ(i) only for `N ∈ {1, 2, 4}`, so exact runs use
+NFFT 1, 2 or 4 (any signal length, segments, overlap, window, zero padding). -/
+
+instance : RScalar Rat where
+  ofNat n := (n : Rat)
+
+/-- a Gaussian rational -/
+structure Q2 where
+  re : Rat
+  im : Rat
+  deriving Inhabited
+
+instance : CScalar Rat Q2 where
+  add a b := ⟨a.re + b.re, a.im + b.im⟩
+  sub a b := ⟨a.re - b.re, a.im - b.im⟩
+  mul a b := ⟨a.re * b.re - a.im * b.im, a.re * b.im + a.im * b.re⟩
+  zero := ⟨0, 0⟩
+  conj a := ⟨a.re, -a.im⟩
+  ofReal r := ⟨r, 0⟩
+  re a := a.re
+  im a := a.im
+
+/-- `e^{-2πi m/N}` for `N ∈ {1, 2, 4}` (`none` otherwise) -/
+def twiddleQ? (N : Nat) : Option (Nat → Q2) :=
+  if N = 1 then some fun _ => ⟨1, 0⟩
+  else if N = 2 then some fun m => if m % 2 = 0 then ⟨1, 0⟩ else ⟨-1, 0⟩
+  else if N = 4 then some fun m =>
+    match m % 4 with
+    | 0 => ⟨1, 0⟩ | 1 => ⟨0, -1⟩ | 2 => ⟨-1, 0⟩ | _ => ⟨0, 1⟩
+  else none
+
+def parseRatList? (s : String) : Option (Array Rat) :=
+  ((Proto.splitList s).mapM Proto.parseRat?).map List.toArray
+
+def pairUpQ : List Rat → List Q2
+  | a :: b :: rest => ⟨a, b⟩ :: pairUpQ rest
+  | _ => []
+
+def parseQList? (s : String) : Option (Array Q2) :=
+  (parseRatList? s).map fun a => (pairUpQ a.toList).toArray
+
+def showRatList (xs : List Rat) : String := Proto.joinList (xs.map Proto.showRat)
+def showQList (zs : List Q2) : String := showRatList (zs.foldr (fun z acc => z.re :: z.im :: acc) [])
+def qfn (a : Array Q2) (j : Nat) : Q2 := a.getD j ⟨0, 0⟩
+def rfn (a : Array Rat) (j : Nat) : Rat := a.getD j 0
 
 /-! ### protocol helpers -/
 
